@@ -271,6 +271,72 @@ fn fam_crc(cx: &mut Cx) {
             });
         }
     }
+    // the streaming entry point itself, from adversarial register values (0 is a legitimate register)
+    let regs: Vec<u32> = vec![0, 1, 0xFFFF_FFFF, 0x8000_0000, 0x0000_FFFF, rng.next() as u32, rng.next() as u32];
+    for &n in [0usize, 1, 3, 4, 7, 8, 9, 16, 33, 64, 65, 130].iter() {
+        for &init in regs.iter() {
+            let d = content("random", n, &mut rng);
+            let pls = cx.pls1();
+            cx.case("crc", json!({"init": w32(init), "data": bytes_json(&d), "api": "crc32c_update"}), json!({"len": n, "init": init, "api": "update"}), &pls, 1, true,
+                    &mut |a1, _, ps, _, _| {
+                let b = a1.place(ps, &d);
+                match crcm::crc32c_update(init, b) {
+                    Ok(v) => json!({"r": w32(v)}),
+                    Err(_) => json!({"r": [-1, -1]}),
+                }
+            });
+        }
+    }
+    // the fold: every register of the stream is logged.  Streams built to pass through register 0 at a cut:
+    // FF FF FF FF first (0xFFFFFFFF xor FFFFFFFF = 0), and a prefix followed by the little-endian bytes of its own
+    // raw register (taken from the code under test: it only constructs the input, TLC judges every register)
+    let mut streams: Vec<(u32, Vec<Vec<u8>>)> = vec![];
+    let payload = content("random", 40, &mut rng);
+    streams.push((0xFFFF_FFFF, vec![vec![0xFF; 4], payload.clone()]));
+    streams.push((0xFFFF_FFFF, vec![vec![0xFF; 4], vec![], payload[..7].to_vec(), vec![], payload[7..].to_vec()]));
+    streams.push((0xFFFF_FFFF, vec![vec![0xFF; 2], vec![0xFF; 2], vec![], vec![]]));
+    for plen in [0usize, 1, 5, 8, 17, 64] {
+        let prefix = content("random", plen, &mut rng);
+        let raw = crcm::crc32c(&prefix, 0xFFFF_FFFF).unwrap_or(0);
+        let tail = content("random", 9, &mut rng);
+        streams.push((0xFFFF_FFFF, vec![prefix.clone(), raw.to_le_bytes().to_vec(), tail.clone()]));
+        streams.push((0xFFFF_FFFF, vec![[prefix.clone(), raw.to_le_bytes().to_vec()].concat(), vec![], tail.clone()]));
+    }
+    for &init in regs.iter() {
+        streams.push((init, vec![vec![], payload[..3].to_vec(), vec![], payload[3..].to_vec()]));
+        let raw = crcm::crc32c(&payload[..8], init).unwrap_or(0);
+        streams.push((init, vec![payload[..8].to_vec(), raw.to_le_bytes().to_vec(), payload[8..20].to_vec()]));
+    }
+    // every cut of a short input, the listed cuts of a long one
+    let short = content("random", 12, &mut rng);
+    for k in 0..=12 {
+        streams.push((0xFFFF_FFFF, vec![short[..k].to_vec(), short[k..].to_vec()]));
+        streams.push((0, vec![short[..k].to_vec(), vec![], short[k..].to_vec()]));
+    }
+    let long = content("random", 130, &mut rng);
+    for k in [1usize, 3, 4, 7, 8, 15, 16, 31, 32, 63, 64, 129] {
+        streams.push((0xFFFF_FFFF, vec![long[..k].to_vec(), long[k..].to_vec()]));
+        streams.push((0x8000_0000, vec![long[..k].to_vec(), vec![], long[k..k + 1].to_vec(), long[k + 1..].to_vec()]));
+    }
+    for (init, parts) in streams {
+        let pls = cx.pls1();
+        let pj: Vec<Value> = parts.iter().map(|p| bytes_json(p)).collect();
+        let total: usize = parts.iter().map(|p| p.len()).sum();
+        cx.case("crc_fold", json!({"init": w32(init), "parts": pj}), json!({"len": total, "init": init, "nparts": parts.len()}), &pls, parts.len(), true,
+                &mut |a1, _, ps, _, _| {
+            let mut crc = init;
+            let mut regs: Vec<Value> = vec![];
+            for p in parts.iter() {
+                let b = a1.place(ps, p);
+                match crcm::crc32c_update(crc, b) {
+                    Ok(v) => crc = v,
+                    Err(_) => return json!({"regs": [], "fin": [-1, -1]}),
+                }
+                regs.push(w32(crc));
+            }
+            json!({"regs": regs, "fin": w32(crcm::crc32c_finalize(crc))})
+        });
+    }
     // incremental: init, update per part, finalize
     for &n in lens.iter() {
         let d = content("random", n, &mut rng);
